@@ -430,3 +430,5 @@ def policy(repo, tier):
 
 
 EXTRA = [policy]
+
+REPLAY_UNKNOWN = True    # undecided / out-of-subset items are searched natively (replay) before being reported UNDECIDED
